@@ -35,6 +35,8 @@ def run_C13(res, tier, seed, t_end):
             for db in dbs:
                 forms.append((tag, db, 'Strict(server,db)', fakeredis.FakeStrictRedis(server=srv, db=db)))
                 forms.append((tag, db, 'Redis(server,db)', fakeredis.FakeRedis(server=srv, db=db)))
+                forms.append((tag, db, 'Strict(host,port,db positional)', fakeredis.FakeStrictRedis('localhost', 6379, db, server=srv)))
+                forms.append((tag, db, 'Redis(host,port,db positional)', fakeredis.FakeRedis('localhost', 6379, db, None, server=srv)))
                 forms.append((tag, db, 'from_url(server)', fakeredis.FakeStrictRedis.from_url('redis://localhost:6379/%d' % db, server=srv)))
                 forms.append((tag, db, 'from_url(db kw)', fakeredis.FakeRedis.from_url('redis://localhost:6379', db=db, server=srv)))
                 forms.append((tag, db, 'aio(server,db)', far.FakeRedis(server=srv, db=db)))
@@ -369,6 +371,11 @@ def run_C14(res, tier, seed, t_end):
                 out.append(('exc', type(e).__name__))
         do(lambda: r.set('k', 'v')); do(lambda: r.get('k')); do(lambda: r.rpush('l', 'a', 'b')); do(lambda: r.lrange('l', 0, -1))
         do(lambda: r.execute_command('GET', 'l')); do(lambda: r.blpop('l', 1)); do(lambda: r.blpop('nolist', 1))
+        # commands whose replies the client treats specially (no decoding, pairs, floats, cursors)
+        do(lambda: r.dump('k')); do(lambda: r.restore('k2', 0, r.dump('k'))); do(lambda: r.get('k2')); do(lambda: r.dump('missing'))
+        do(lambda: r.hset('h', 'f', 'v')); do(lambda: r.hgetall('h')); do(lambda: r.zadd('z', {'m': 1.5})); do(lambda: r.zrange('z', 0, -1, withscores=True))
+        do(lambda: r.scan(0)); do(lambda: r.sscan('nokey', 0)); do(lambda: r.type('z')); do(lambda: r.ttl('k')); do(lambda: r.incrbyfloat('fl', 1.5))
+        do(lambda: r.execute_command('BLPOP', 'nolist2', '1000000000000') if False else None)
         p = r.pipeline(); p.set('a', '1'); p.incr('a'); p.lpush('a', 'x'); p.get('a')
         do(lambda: p.execute(raise_on_error=False) and [str(type(x).__name__) if isinstance(x, Exception) else x for x in p.execute(raise_on_error=False)] if False else None)
         p2 = r.pipeline(transaction=True); p2.set('t', '1'); p2.get('t'); do(lambda: p2.execute())
@@ -393,6 +400,13 @@ def run_C14(res, tier, seed, t_end):
                 out.append(('exc', type(e).__name__))
         await do(lambda: r.set('k', 'v')); await do(lambda: r.get('k')); await do(lambda: r.rpush('l', 'a', 'b')); await do(lambda: r.lrange('l', 0, -1))
         await do(lambda: r.execute_command('GET', 'l')); await do(lambda: r.blpop('l', 1)); await do(lambda: r.blpop('nolist', 1))
+
+        async def restore_dump():
+            return await r.restore('k2', 0, await r.dump('k'))
+        await do(lambda: r.dump('k')); await do(restore_dump); await do(lambda: r.get('k2')); await do(lambda: r.dump('missing'))
+        await do(lambda: r.hset('h', 'f', 'v')); await do(lambda: r.hgetall('h')); await do(lambda: r.zadd('z', {'m': 1.5})); await do(lambda: r.zrange('z', 0, -1, withscores=True))
+        await do(lambda: r.scan(0)); await do(lambda: r.sscan('nokey', 0)); await do(lambda: r.type('z')); await do(lambda: r.ttl('k')); await do(lambda: r.incrbyfloat('fl', 1.5))
+        out.append(('ok', None))
         out.append(('ok', None))
         p2 = r.pipeline(transaction=True); p2.set('t', '1'); p2.get('t'); await do(lambda: p2.execute())
         ps = r.pubsub(); await ps.subscribe('ch'); await do(lambda: ps.get_message(timeout=0.2))
